@@ -183,14 +183,24 @@ class Real:
     def new_env(self):
         return self.eval.EvalEnvironment()
 
+    def _note(self, text, env, t0):
+        """remember top-level expressions evaluated in a fresh environment (for the generic re-evaluation oracle)"""
+        if env is not None or not isinstance(text, str):
+            return
+        seen = self.__dict__.setdefault("seen", {})
+        if text not in seen and len(seen) < 200000:
+            seen[text] = time.process_time() - t0
+
     def value(self, text, env=None, timeout=5.0):
         """tokenise → parse → eval → reduce_result.  Returns ('ok', value) or ('err', code)."""
+        t0_ = time.process_time()
         try:
             with alarm(timeout):
                 toks = self.tokens.tokenise(text)
                 tree = self.parse.parse_tokens(toks)
                 v = self.eval.eval_parse_tree(tree, env)
                 v = self.interpret.reduce_result(v)
+            self._note(text, env, t0_)
             return ("ok", v)
         except BaseException as e:  # noqa
             if isinstance(e, (KeyboardInterrupt, SystemExit)):
@@ -202,9 +212,12 @@ class Real:
         out, err = io.StringIO(), io.StringIO()
         box = self.interpret.ResultBox()
         status, escaped = None, None
+        t0_ = time.process_time()
         try:
             with alarm(timeout):
                 status = self.interpret.execute(text, env=env, out=out, errout=err, result_box=box, **kw)
+            if status == 0 and not kw:
+                self._note(text, env, t0_)
         except BaseException as e:  # noqa
             if isinstance(e, (KeyboardInterrupt, SystemExit)):
                 raise
@@ -647,6 +660,8 @@ def main(argv):
         ctx.proof_ok = proof_ok
         try:
             mod.check(ctx)
+            if not getattr(mod, "NO_REPEAT_ORACLE", False):
+                repeat_oracle(ctx)
         except Infra:
             raise
         except Timeout:
@@ -731,3 +746,29 @@ def clone_env(env):
         elif isinstance(val, list):
             setattr(e2, k, [dict(x) if isinstance(x, dict) else x for x in val])
     return e2
+
+
+# ---- generic oracle: one parse node evaluated repeatedly gives each time what it gives when written out --------------------
+REPEAT_SKIP = re.compile(r"rand|sample|seed|now|today|quit|exit|histogram|line|scatter|plot|options|bar|[;=%\n\r]|\bi_\b")
+
+
+def repeat_oracle(ctx, n_quick=120, n_thorough=1500):
+    """For expressions E this run evaluated successfully: `{E : i_ in 1..3}` (ONE node, evaluated three times) must print what
+    `{E, E, E}` (three nodes, evaluated once each) prints.  Implementations that keep state on the parse node, update an
+    operand or a literal in place, or memoise per call site are right the first time only."""
+    R = ctx.real
+    seen = getattr(R, "seen", None)
+    if not seen:
+        return
+    cands = sorted(t for t, dt in seen.items() if dt < 0.05 and 0 < len(t) < 300 and not REPEAT_SKIP.search(t.replace("==", "").replace("<=", "").replace(">=", "").replace("!=", "")))
+    rng = random.Random(ctx.seed * 7919 + 17)
+    for text in rng.sample(cands, min(len(cands), ctx.n(n_quick, n_thorough))):
+        a = R.execute("{%s, %s, %s}" % (text, text, text))
+        if a["status"] != 0 or a["escaped"] or " object at 0x" in a["out"]:
+            continue
+        b = R.execute("{%s : i_ in 1..3}" % text)
+        ctx.count("repeat:" + text, bucket="re-evaluated node")
+        if b["escaped"] or b["status"] != 0 or b["out"] != a["out"]:
+            ctx.violation("repeat:" + text, "{%s : i_ in 1..3}" % text, a["out"].strip()[:200],
+                          (b["out"].strip() or "status %s %s %s" % (b["status"], b["escaped"] or "", b["err"].strip()))[:200],
+                          "execute('{E : i_ in 1..3}') against execute('{E, E, E}') for E = %r" % text)
